@@ -38,7 +38,7 @@ class verb(Command):
         for endpattern in tex.itertokens():
             if endpattern.catcode == Token.CC_BGROUP:
                 endpattern = Other('}')
-            elif endpattern.catcode != Token.CC_OTHER:
+            elif endpattern.catcode not in (Token.CC_OTHER, Token.CC_LETTER):
                 endpattern = Other(str(endpattern).split('::').pop())
             self.delimiter = endpattern
             break
